@@ -1937,43 +1937,45 @@ pub fn run_fault_one(ctx: &mut Ctx, scn: &StoreScn) {
                 }
             }
         }
+        // a transient failure inside a timer-driven merge must not stop the periodic merging:
+        // with the triggers (0 dead bytes / fragmentation 0) exceeded again, a later tick of the
+        // SAME instance merges
+        if background_fault && ctx.out.violations.is_empty() && scn.cfg.merge_always {
+            if let Some(s) = store.as_ref() {
+                for (j, key) in keys.iter().enumerate() {
+                    let v = Val { tag: 880_000 + j as u32, len: 10 }.bytes();
+                    if set(&s.h, key, v.clone()).is_ok() {
+                        model.insert(key.clone(), v);
+                    }
+                    if j % 2 == 1 && del(&s.h, key).is_ok() {
+                        model.remove(key);
+                    }
+                }
+                uncertain = None;
+                let seq2 = io_seq(ctx.sim);
+                ctx.sim.sleep_thread(ctx.me, 3 * scn.cfg.check_interval_ms * 1_000_000 + 1_000_000);
+                let merged = fsim::with_fs(ctx.sim, |fs| fs.log.iter().any(|r| r.seq > seq2 && r.res >= 0 && r.op == IoOp::Create && fs.path_name(r.path).ends_with(".hint")));
+                ctx.sim.probe("background_merge_expected_after_background_fault");
+                if !merged {
+                    ctx.viol("background-merge-stopped-after-fault", format!("after the fault (#{} errno {} in {:?}) no background merge ran within three check intervals although dead entries exceed the triggers again", nth, errno, fault_op), "");
+                }
+                for key in keys {
+                    match get(&s.h, key) {
+                        Ok(g) if g == model.get(key).cloned() => {}
+                        other => {
+                            ctx.viol("wrong-after-fault", format!("after the background fault and a later merge key {} reads {:?}; acknowledged value is {}", hex(key), other.map(|v| hexo(&v)), hexo(&model.get(key).cloned())), "");
+                            break;
+                        }
+                    }
+                }
+            }
+        }
         if !ctx.out.violations.is_empty() {
             break;
         }
         i += 1;
     }
     fsim::set_op_tag(0);
-    // a transient failure inside a timer-driven merge must not stop the periodic merging: with
-    // the triggers (0 dead bytes / fragmentation 0) exceeded again, a later tick merges
-    if ctx.out.violations.is_empty() && scn.cfg.merge_always && fault_op.as_deref().map(|f| f.starts_with("a background task")).unwrap_or(false) {
-        if let Some(s) = store.as_ref() {
-            for (j, key) in keys.iter().enumerate() {
-                let v = Val { tag: 880_000 + j as u32, len: 10 }.bytes();
-                if set(&s.h, key, v.clone()).is_ok() {
-                    model.insert(key.clone(), v);
-                }
-                if j % 2 == 1 && del(&s.h, key).is_ok() {
-                    model.remove(key);
-                }
-            }
-            let seq2 = io_seq(ctx.sim);
-            ctx.sim.sleep_thread(ctx.me, 3 * scn.cfg.check_interval_ms * 1_000_000 + 1_000_000);
-            let merged = fsim::with_fs(ctx.sim, |fs| fs.log.iter().any(|r| r.seq > seq2 && r.res >= 0 && r.op == IoOp::Create && fs.path_name(r.path).ends_with(".hint")));
-            ctx.sim.probe("background_merge_expected_after_background_fault");
-            if !merged {
-                ctx.viol("background-merge-stopped-after-fault", format!("after the fault (#{} errno {} in {:?}) no background merge ran within three check intervals although dead entries exceed the triggers again", nth, errno, fault_op), "");
-            }
-            for key in keys {
-                match get(&s.h, key) {
-                    Ok(g) if g == model.get(key).cloned() => {}
-                    other => {
-                        ctx.viol("wrong-after-fault", format!("after the background fault and a later merge key {} reads {:?}; acknowledged value is {}", hex(key), other.map(|v| hexo(&v)), hexo(&model.get(key).cloned())), "");
-                        break;
-                    }
-                }
-            }
-        }
-    }
     if let Some(s) = store.as_ref() {
         let (avail, cap) = s.h.verif_readers();
         if avail != cap && ctx.out.violations.is_empty() {
